@@ -88,7 +88,7 @@ class IndicatorResourceUtilization(Indicator):
         z3_var_horiz = processscheduler.base.active_problem._horizon  # the z3 var
 
         if predefined_horiz is not None:
-            expression = z3.Sum(durations) * int(100 / predefined_horiz)
+            expression = (z3.Sum(durations) * 100) / predefined_horiz
         else:
             expression = (z3.Sum(durations) * 100) / z3_var_horiz
 
